@@ -245,7 +245,7 @@ MC_UNITS = [
          lifts={"add_new_body": Lift(MC_TQ, r"std::size_t add_new\(std::int64_t add_count, thread_queue_type\* addfrom, bool stealing\)",
                                      rules=MC_ADDNEW_RULES, loops={1: MC_ADDNEW_LOOP, "count": 1}),
                 "schedule_work_body": MC_SW_LIFT},
-         funcs=[MC_TQ + ": thread_queue_mc::add_new", MC_TQ + ": thread_queue_mc::schedule_work (inlined)"], min_obligations=300,
+         funcs=[MC_TQ + ": thread_queue_mc::add_new", MC_TQ + ": thread_queue_mc::schedule_work (inlined)"], min_obligations=2500,
          doc="I+T over two queue objects (receiver, source; possibly the same): every description popped from "
              "addfrom->new_task_items_ gets exactly one thread object (made by the receiver's holder), one registration in that "
              "holder's map, and is queued exactly once in the RECEIVER's work_items_ (work_items_count_ +1 before each push); "
@@ -266,7 +266,7 @@ MC_NEXT_RULES = [MC_NS] + MC_DEBUG + MC_CONTAINERS + MC_COUNTERS + [
 MC_UNITS += [
     Unit("mc.tq.schedule_work", MC_DIR + "mc_sched.c", defines=MC_DEFS + ["U_SCHEDULE_WORK"], enforce="schedule_work",
          lifts={"schedule_work_body": MC_SW_LIFT},
-         funcs=[MC_TQ + ": thread_queue_mc::schedule_work"], min_obligations=60,
+         funcs=[MC_TQ + ": thread_queue_mc::schedule_work"], min_obligations=600,
          doc="I+T: exactly one insertion into work_items_, of exactly the thread passed in, at the requested end, never a thread "
              "that is already queued; work_items_count_ is incremented BEFORE the insertion (counter >= entries at every "
              "instant, never negative), net +1"),
@@ -275,7 +275,7 @@ MC_UNITS += [
     Unit("mc.tq.get_next_thread", MC_DIR + "mc_sched.c", defines=MC_DEFS + ["U_GET_NEXT_THREAD"], enforce="get_next_thread",
          lifts={"get_next_thread_body": Lift(MC_TQ, r"bool get_next_thread\(threads::detail::thread_id_ref_type& thrd, bool other_end,\s*bool check_new = false\)",
                                              rules=MC_NEXT_RULES)},
-         funcs=[MC_TQ + ": thread_queue_mc::get_next_thread (lifted twice: the call under contract and its one recursive call)"], min_obligations=300,
+         funcs=[MC_TQ + ": thread_queue_mc::get_next_thread (lifted twice: the call under contract and its one recursive call)"], min_obligations=1000,
          doc="I+T over the contract of add_new: returns true IFF it removed exactly one entry from work_items_ and hands out exactly "
              "that entry (from the requested end); work_items_count_ is decremented only AFTER a successful removal, net -1 iff "
              "removed; nothing is put back; staged work is converted at most once, only with check_new and never while stealing, "
@@ -300,7 +300,7 @@ MC_UNITS += [
          lifts={"create_thread_body": Lift(MC_TQ, r"void create_thread\(threads::detail::thread_init_data& data,\s*threads::detail::thread_id_ref_type\* id, error_code& ec\)",
                                            rules=MC_CREATE_RULES),
                 "schedule_work_body": MC_SW_LIFT},
-         funcs=[MC_TQ + ": thread_queue_mc::create_thread", MC_TQ + ": thread_queue_mc::schedule_work (inlined)"], min_obligations=300,
+         funcs=[MC_TQ + ": thread_queue_mc::create_thread", MC_TQ + ": thread_queue_mc::schedule_work (inlined)"], min_obligations=1400,
          doc="I+T: a new task takes exactly one of two roads: run_now -- one thread object made from the request by the holder, "
              "registered once in the holder's map, queued exactly once iff the REQUESTED initial state is pending (handed to the "
              "caller un-queued for every other requested state; pending_boost: either) -- or staged -- new_tasks_count_ +1 "
@@ -308,9 +308,274 @@ MC_UNITS += [
              "queued / staged; staged with a non-pending state: bad_parameter, nothing touched)"),
 ]
 
-MC_META = {
-    "explanation": "",
-    "trusted_base": [],
-    "assumptions": [],
-    "not_decided": [],
+# ---------------------------------------------------------------------------------------------------------------
+# queue_holder_thread: routing wrappers (T over the thread_queue_mc contracts)
+
+MC_QPTR = r"(?:bp|hp|np|lp)_queue_"
+MC_QH_MEMBERS = Members(["bp_queue_", "hp_queue_", "np_queue_", "lp_queue_", "owner_mask_", "thread_num_", "parameters_"],
+                        optional=["bp_queue_", "hp_queue_", "np_queue_", "lp_queue_", "owner_mask_", "thread_num_", "parameters_"])
+MC_OWNS = McCall0(r"(?<![\w.>])owns_(bp|hp|np|lp)_queue", "owns_{h1}_queue(self)")
+
+
+def _mc_gnt(args, env):                       # bool check_new = false
+    a = list(args) + ["false"] * (3 - len(args))
+    return "q_get_next_thread(%s->%s, %s)" % (env["recv"], env["ptr"], ", ".join(a))
+
+
+def _mc_sw(args, env):
+    return "q_schedule_work(%s->%s, %s)" % (env["recv"], env["ptr"], ", ".join(args))
+
+
+MC_ROUTE_RULES = [MC_NS, MC_PRIO_ENUM, MC_ERR_ENUM] + MC_DEBUG + [
+    Sub(r"\bdata\.", "data->", None),
+    Sub(r"\bstd::terminate\(\)\s*;", "{ vx_terminate(); return; }", None),
+    # calls through the holder's queue pointers: WHICH pointer receives WHICH call with WHICH arguments is the code's
+    McPtrCall(MC_QPTR, ["create_thread"], "q_create_thread({recv}->{ptr}, {args})"),
+    McPtrCall(MC_QPTR, ["schedule_work"], _mc_sw),
+    McPtrCall(MC_QPTR, ["get_next_thread"], _mc_gnt),
+    McPtrCall(MC_QPTR, ["add_new"], "q_add_new({recv}->{ptr}, {args})"),
+    Sub(r"\breturn\s+(q_create_thread\((?:[^();]|\([^()]*\))*\))\s*;", r"{ \1; return; }", None),     # `return f();` of a void function
+    Sub(r"\bthread_holder_type\s*\*", "struct qh *", None),
+    MC_OWNS, MC_QH_MEMBERS, MC_THIS,
+]
+MC_OWNS_LIFTS = {
+    "owns_" + k: Lift(MC_QH, r"bool owns_%s_queue\(\) const" % k, rules=[MC_QH_MEMBERS]) for k in ("bp", "hp", "np", "lp")
 }
+MC_QH_F = MC_QH + ": queue_holder_thread::"
+
+
+def _mc_route(name, define, locator, func, doc, min_obl):
+    return Unit("mc.qh." + name, MC_DIR + "mc_qh_route.c", defines=MC_DEFS + [define], enforce=func,
+                lifts=dict(MC_OWNS_LIFTS, body=Lift(MC_QH, locator, rules=MC_ROUTE_RULES)),
+                funcs=[MC_QH_F + func, MC_QH_F + "owns_{bp,hp,np,lp}_queue (inlined)"], min_obligations=min_obl, doc=doc)
+
+
+MC_UNITS += [
+    _mc_route("create_thread", "U_CREATE", r"void create_thread\(threads::detail::thread_init_data& data,\s*threads::detail::thread_id_ref_type\* tid, std::size_t thread_num, error_code& ec\)",
+              "create_thread",
+              "T over the contract of thread_queue_mc::create_thread: exactly one queue of THIS holder receives the request, with the "
+              "caller's data, id and error_code passed through -- the queue of the request's priority class (normal; bound / high, "
+              "high_recursive, boost / low when the holder has that queue) -- or the process is terminated (never a silent drop); a "
+              "request whose class has a queue is always accepted; run_now reaches a queue only on the holder's own worker", 400),
+    _mc_route("schedule_thread", "U_SCHEDULE", r"void schedule_thread\(threads::detail::thread_id_ref_type thrd,\s*execution::thread_priority priority, bool other_end = false\)",
+              "schedule_thread",
+              "T over the contract of thread_queue_mc::schedule_work: exactly one queue of THIS holder receives exactly the thread "
+              "passed in, once, at the requested end -- the queue of its priority class when the holder has one; the victim becomes "
+              "pending exactly once", 400),
+    _mc_route("get_next_thread_HP", "U_NEXT_HP", r"bool get_next_thread_HP\(\s*threads::detail::thread_id_ref_type& thrd, bool stealing, bool check_new\)",
+              "get_next_thread_HP",
+              "T over the contract of thread_queue_mc::get_next_thread: a thread is returned IFF exactly one pop succeeded (bound, "
+              "then high), it is the popped one, the id is empty otherwise; every poll is made with an empty id; after a success "
+              "nothing else is polled; only this holder's queues, with the caller's stealing flag and check_new; a thief never "
+              "polls the bound queue", 400),
+    _mc_route("get_next_thread", "U_NEXT", r"bool get_next_thread\(threads::detail::thread_id_ref_type& thrd, bool stealing\)",
+              "get_next_thread",
+              "T: same contract for the normal and low queues (never looks for new work)", 400),
+    _mc_route("add_new_HP", "U_ADDNEW_HP", r"std::size_t add_new_HP\(std::int64_t add_count, thread_holder_type\* addfrom, bool stealing\)",
+              "add_new_HP",
+              "T over the contract of thread_queue_mc::add_new: staged tasks are converted only INTO queues this holder owns, FROM "
+              "the source holder's queue of the SAME priority class, with the caller's budget and flag; at most one queue converts "
+              "per call, nothing is asked after it and the result is exactly what it converted; a thief never converts bound work", 400),
+    _mc_route("add_new", "U_ADDNEW", r"std::size_t add_new\(std::int64_t add_count, thread_holder_type\* addfrom, bool stealing\)",
+              "add_new",
+              "T: same contract for the normal and low queues", 400),
+]
+
+# ---------------------------------------------------------------------------------------------------------------
+# queue_holder_thread: thread map, terminated list
+
+MC_SCOPED_LOCK = Guard(r"\bscoped_lock\s+(\w+)\(\s*thread_map_mtx_\.data_\s*\)\s*;", r"struct ulock \1 = ulock_make(&self->thread_map_mtx_);", r"ulock_dtor(&\1);", None)
+MC_BARE_COUNTER = Sub(r"(?<![\w.>+\-])(terminated_items_count_|thread_map_count_)\b(?:\.data_)?(?!\s*(?:\.|\())", r"atomic_load_\1(self)", None)   # implicit atomic load
+MC_MAP = [
+    Sub(r"std::pair<\s*thread_map_type::iterator\s*,\s*bool\s*>\s+(\w+)\s*=", r"struct map_ins \1 =", None),
+    Sub(r"((?:\b\w+\s*->\s*)?)thread_map_\.find\(([^()]*)\)\s*!=\s*\1thread_map_\.end\(\)",
+        lambda m: "map_contains(%s, %s)" % ((m.group(1).replace("->", "").strip() or "self"), m.group(2)), None),
+    McMemberCall("thread_map_", "insert", "map_insert({recv}, {0})"),
+    McMemberCall("thread_map_", "erase", "map_erase({recv}, {0})"),
+    McMemberCall("thread_map_", "size", "map_size({recv})"),
+    Sub(r"\bstd::string\s+(\w+)\s*=\s*std::to_string\(([^;]*)\)\s*;", r"size_t vx_str_\1 = (size_t) (\2);", None),     # message text
+    Sub(r"\b(\w+)\.unlock\(\)", r"ulock_unlock(&\1)", None),
+    McCall0(r"(?<![\w.>])deallocate", "qh_deallocate({0})"),
+]
+MC_TERM = [
+    Sub(r"&\s*(\w+)->get_queue<queue_holder_thread>\(\)", r"td_get_holder(\1)", None),
+    McMemberCall("terminated_items_", "push", "term_push({recv}, {0})"),
+    McMemberCall("terminated_items_", "pop", "term_pop_h({recv}, &{0})"),
+    Sub(r"\bthread_data\s*\*\s*(\w+)\s*;", r"td_handle \1 = 0;", None),                       # thread_data* local -> handle
+    Sub(r"\bthread_id_type\s+(\w+)\(\s*(\w+)\s*\)\s*;", r"thread_id_type \1 = TDP(\2);", None),
+    McCall0(r"(?<![\w.>])cleanup_terminated", "qh_cleanup_terminated(self, {0}, {1})"),
+    McCall0(r"(?<![\w.>])remove_from_thread_map", "qh_remove_from_thread_map(self, {0}, {1})"),
+    McCall0(r"(?<![\w.>])recycle_thread", "qh_recycle_thread(self, {0})"),
+]
+MC_HOLDER_RULES = [MC_NS, MC_ERR_ENUM, mc_throw("")] + MC_DEBUG + [MC_SCOPED_LOCK] + MC_MAP + MC_TERM + MC_COUNTERS + [MC_BARE_COUNTER, MC_QH_MEMBERS, MC_THIS]
+MC_UNITS += [
+    Unit("mc.qh.add_to_thread_map", MC_DIR + "mc_qh_map.c", defines=MC_DEFS + ["U_ADD"], enforce="add_to_thread_map",
+         lifts={"body": Lift(MC_QH, r"void add_to_thread_map\(threads::detail::thread_id_type tid\)", rules=MC_HOLDER_RULES)},
+         funcs=[MC_QH_F + "add_to_thread_map"], min_obligations=500,
+         doc="M+T: under thread_map_mtx_ the id is inserted exactly once and thread_map_count_ is incremented exactly once, after "
+             "the insertion; a refused id is an out_of_memory exception thrown with the lock released (never a silent drop), "
+             "nothing counted; the lock is released on every path with thread_map_count_ == number of entries"),
+    Unit("mc.qh.remove_from_thread_map", MC_DIR + "mc_qh_map.c", defines=MC_DEFS + ["U_REMOVE"], enforce="remove_from_thread_map",
+         lifts={"body": Lift(MC_QH, r"void remove_from_thread_map\(threads::detail::thread_id_type tid, bool dealloc\)", rules=MC_HOLDER_RULES)},
+         funcs=[MC_QH_F + "remove_from_thread_map"], min_obligations=400,
+         doc="I+T (lock held by the caller): the id is erased exactly once, thread_map_count_ decremented exactly once after the "
+             "erase, the object destroyed iff the caller asked for it, once and only after it left the map; the authors' "
+             "assertions (in the map; count >= 0; erased) hold"),
+    Unit("mc.qh.destroy_thread", MC_DIR + "mc_qh_map.c", defines=MC_DEFS + ["U_DESTROY"], enforce="destroy_thread",
+         lifts={"body": Lift(MC_QH, r"void destroy_thread\(\s*threads::detail::thread_data\* thrd, std::size_t thread_num, bool xthread\)", rules=MC_HOLDER_RULES)},
+         funcs=[MC_QH_F + "destroy_thread (PIKA_HAVE_THREAD_STACK_MMAP branch)"], min_obligations=500,
+         doc="I+T: the terminated thread is appended exactly once to terminated_items_ of THIS holder (the one that created it), "
+             "terminated_items_count_ +1 exactly once on the same path, the object is not touched after the push, nothing is "
+             "erased or recycled by this call itself; the clean-up runs at most once, after the push, only when the calling "
+             "worker owns the holder (never for a cross-thread destroy), never as delete_all"),
+]
+
+MC_CT_LOOP1 = """
+__CPROVER_assigns(todelete, g_h0.thread_map_count_, g_h0.terminated_items_count_, G, g_last_term_load)
+__CPROVER_loop_invariant(CT_INV(self))
+"""
+MC_CT_LOOP2 = """
+__CPROVER_assigns(todelete, delete_count, g_h0.thread_map_count_, g_h0.terminated_items_count_, G, g_last_term_load)
+__CPROVER_loop_invariant(CT_INV(self) && delete_count >= -MC_BIG - G.term_pops && delete_count <= MC_BIG)
+"""
+MC_UNITS += [
+    Unit("mc.qh.cleanup_terminated", MC_DIR + "mc_qh_cleanup.c", defines=MC_DEFS, enforce="cleanup_terminated",
+         lifts={"body": Lift(MC_QH, r"bool cleanup_terminated\(std::size_t thread_num, bool delete_all\)", rules=MC_HOLDER_RULES,
+                             loops={1: MC_CT_LOOP1, 2: MC_CT_LOOP2, "count": 2})},
+         funcs=[MC_QH_F + "cleanup_terminated"], min_obligations=1200,
+         doc="I+T, both drain loops under loop contract: every thread popped from terminated_items_ is counted out of "
+             "terminated_items_count_ once (after the pop), removed from the map once and then recycled once (destroyed once for "
+             "delete_all); the victim is popped at most once and then ends on a free list (or destroyed), out of the map; a "
+             "thread that is not popped is not touched; thread_map_mtx_ is held for every pop / removal / recycle and released at "
+             "exit; `true` only for a counter that read 0"),
+]
+
+# ---------------------------------------------------------------------------------------------------------------
+# lemma over the hop contracts
+MC_UNITS += [
+    Unit("mc.lemma.one_place", MC_DIR + "mc_lemma.c", defines=MC_DEFS, kind="lemma", min_obligations=1500,
+         funcs=["(contract stubs of specs/C01/mc_hops.h and mc_qh.h = the hop contracts the mc.* units are proved against)"],
+         doc="lemma over the hop contracts: from any state with the victim in exactly one place, any single hop whose precondition "
+             "holds (staged push / pop, object creation, map insert / registration, work_items_ push / pop directly or through the "
+             "holder, conversion through the holder, terminated push / pop, removal + recycle / destroy) leaves it in exactly one "
+             "place; no hop makes it vanish or duplicates it; it comes into somebody's hands only by a pop that returned it; a "
+             "pending thread leaves its queue only into the hands of the worker whose single pop returned it"),
+]
+
+MC_META = {
+    "explanation":
+        "U5 (mc) mc.*: the queue hops of shared_priority_queue_scheduler's per-worker queues. ONE symbolic victim task is followed "
+        "through the containers of thread_queue_mc (new_task_items_, work_items_) and of queue_holder_thread (thread_map_, "
+        "terminated_items_, free lists behind the contract of recycle_thread) with one membership bit per container plus `in the "
+        "hands of the call under verification`; every container stub asserts its counter discipline AT the operation and re-checks "
+        "`the victim is in exactly one place`. mc.tq.*: I+T contracts of thread_queue_mc::add_new (two queue objects, loop "
+        "contract), create_thread, get_next_thread (its one recursive call lifted as a second copy), schedule_work; mc.qh.*: T "
+        "contracts of the routing wrappers of queue_holder_thread (create_thread, schedule_thread, get_next_thread[_HP], "
+        "add_new[_HP]) over those, and M / I+T contracts of add_to_thread_map, remove_from_thread_map, destroy_thread, "
+        "cleanup_terminated (two loop contracts); mc.lemma.one_place: any single hop keeps the victim in exactly one place and "
+        "hands it to somebody only by a pop that returned it. As for hops.*, the composition with the state-word units (U2-U4) "
+        "and of the hops with each other is the paper argument of DESIGN 3.4. TWO obligations fail on the pinned tree (defects of "
+        "thread_queue_mc, see not_decided / the report): mc.tq.add_new postcondition (1x) and mc.tq.create_thread postcondition "
+        "`requested state other than pending => not queued`; each has an exclusion define for a known-finding entry "
+        "(MC_EXCL_MAP_REFUSAL, MC_EXCL_PENDING_ALIAS) with which the unit proves completely.",
+    "trusted_base": [
+        "specs/C01/mc_hops.h nt_interfere / wi_interfere: VX_ASSUME(ledger invariant) -- the other workers keep new_tasks_count_ >= "
+        "entries and work_items_count_ >= entries (+ their own in-flight operations); they may take a victim that is not in this "
+        "call's hands out of a queue, but never put it (back) in; mc_at_acquire: while thread_map_mtx_ is free the others keep "
+        "thread_map_count_ == entries; mc_qh.h term_interfere: other destroy_thread calls push and count at any time, nobody but the "
+        "owner (under the lock) pops terminated_items_",
+        "specs/C01/mc_hops.h / mc_qh.h containers: new_task_items_ / work_items_ / terminated_items_ (lock-free queues: push always "
+        "succeeds -- the bool result of ConcurrentQueue::enqueue is ignored by pika too --, pop may fail spuriously and returns an "
+        "element that is in the queue), thread_map_ (std::unordered_set: insert fails iff present -- other ids may be refused "
+        "nondeterministically so that the defensive path stays reachable; erase returns 1 iff present; every OTHER id popped from "
+        "terminated_items_ is in the map) are ghost counts + ONE victim membership bit; VX_ASSUME bounds: ghost counts below 10^9, "
+        "int32 counters below 2*10^9 (they are std::atomic<std::int32_t>: beyond that they overflow -- not decided)",
+        "specs/C01/mc_hops.h qh_create_thread_object (once-ness / size class of the free lists: C12 heap.qht.*; the in-place rewrite "
+        "of pending_do_not_schedule / pending_boost to pending is modelled), qh_add_to_thread_map (restates mc.qh.add_to_thread_map), "
+        "mc_sched.c mcq_add_new (restates mc.tq.add_new (1)-(6)), mc_qh.h q_create_thread / q_schedule_work / q_get_next_thread / "
+        "q_add_new (T stubs restating mc.tq.create_thread / schedule_work / get_next_thread / add_new), qh_remove_from_thread_map, "
+        "qh_recycle_thread (C12 heap.qht.recycle_thread), qh_cleanup_terminated, qh_deallocate (thread_data::destroy): hand-written "
+        "contract stubs, not --replace-call-with-contract (the contracts speak about ghost event counters); mc.lemma.one_place "
+        "cross-checks the victim parts of these stubs against each other",
+        "specs/C01/mc_hops.h vx_throw / MC_RETHROW / VX_CATCH_BEGIN (exception = flag + immediate return; a lowered handler catches, "
+        "`throw;` re-throws), vx_move_tid / tid_release (std::move empties a thread_id_ref_type local; a local that still holds the "
+        "thread at scope exit is an obligation unless an error was reported), get_self_stacksize_enum (VX_ASSUME: never `current`, "
+        "its own PIKA_ASSERT), vx_terminate (std::terminate = flag + return), vx_this_thread_id, monitor.h std::unique_lock lowering",
+        "mc_spec.py helper rules defined locally: McCall0, McMemberCall ([RECV->]member.method(args), receiver captured), McPtrCall "
+        "([RECV->]ptr_member->method(args), receiver and pointer member captured), McTidLocals (RAII lowering of thread_id_ref_type "
+        "locals), McTry (try/catch lowering for repairs; no try block in the pinned text), mc_may_throw (a throwing callee leaves "
+        "the function; inside an expression: GNU statement expression), mc_enum_defines (enumerator values read from /repo); "
+        "debug printing of pika::detail::tq_deb / tqmc_deb (enable_print<false>) and debug_queues() are dropped as statements",
+    ],
+    "assumptions": [
+        "A-LIFE (caller's duty): queue_holder_thread::destroy_thread runs when the last reference to the thread died, i.e. the thread "
+        "is in no queue and in the map of the holder that created it (reference counting is not modelled: ids are plain pointers)",
+        "callers' duties stated by the code's PIKA_ASSERTs, taken as preconditions and NOT re-proved at the call sites in "
+        "shared_priority_queue_scheduler / queue_holder_numa (C10 steal.* covers which holder is chosen): thread_queue_mc::add_new "
+        "and get_next_thread(check_new && !other_end) are called by the thread that owns the holder; queue_holder_thread::"
+        "create_thread: run_now only with thread_num == thread_num_ (the `if` that clears run_now otherwise is therefore dead in "
+        "this unit); cleanup_terminated: thread_num == thread_num_; destroy_thread: the thread belongs to this holder, and "
+        "!xthread means the calling worker owns the holder; create_thread: id != nullptr when the thread is not to be scheduled; "
+        "remove_from_thread_map: lock held, thread in the map; add_new[_HP]: a queue this holder owns exists in the source holder",
+        "every staged task description has initial_state == pending (established by mc.tq.create_thread: anything else is refused with "
+        "bad_parameter; assumed by the new_task_items_.pop stub, used for PIKA_ASSERT(data.initial_state == pending) in add_new)",
+        "fewer than 10^9 conversions / pops / recycles per call and fewer than 10^9 entries per container; add_new is entered with "
+        "add_count >= -1 (its callers pass 32 and 64)",
+        "loop contracts are keyed by local names of the lifted text (add_count, added, task, todelete, delete_count): renaming one "
+        "of these is an extraction failure (exit 2) or is repaired by the driver's frame widening, never a false alarm",
+        "build configuration: PIKA_HAVE_THREAD_STACK_MMAP (terminated_items_ branch of destroy_thread; cleanup_terminated exists)",
+    ],
+    "not_decided": [
+        "DEFECT candidates kept as failing obligations (each proves with its exclusion define and with the repair applied through "
+        "tools/mut.sh): (a) thread_queue_mc::add_new: when holder_->add_to_thread_map throws (std::unordered_set refused the id / "
+        "allocation failure) the description already popped from addfrom->new_task_items_ is never counted out of "
+        "addfrom->new_tasks_count_ (the decrement follows the call; thread_queue::add_new decrements before it throws): the counter "
+        "stays above the queue length for ever; (b) thread_queue_mc::create_thread(run_now) tests data.initial_state == pending AFTER "
+        "holder_->create_thread_object has rewritten pending_do_not_schedule (and pending_boost) to pending in the caller's data: a "
+        "thread requested as 'pending, do not schedule' is pushed to work_items_ AND handed to the caller (thread_queue::"
+        "create_thread latches schedule_now before create_thread_object); no caller in the pinned tree passes "
+        "pending_do_not_schedule",
+        "counter disciplines observed but NOT required: terminated_items_count_ is incremented AFTER the push (destroy_thread) and may "
+        "be transiently negative (a cleaner pops and counts out an entry whose push is not counted yet): cleanup_terminated's "
+        "delete_count = count / 2 may then be negative and the bounded pass drains everything; only recycling policy. With "
+        "count == 1 the bounded pass recycles nothing (delete_count == 0)",
+        "queue_holder_thread::create_thread calls std::terminate for a priority whose queue the holder lacks (bound / high / low "
+        "without bp / hp / lp queue, default_, unknown) while schedule_thread routes the same priorities to the normal queue: loud, "
+        "not a drop; accepted either way",
+        "which end of a container is used, the conversion budgets (32 / 64), when destroy_thread triggers a clean-up, boost -> normal "
+        "priority reset: scheduling policy; the `stealing` flag passed to add_new by get_next_thread (false) is not constrained",
+        "the constructors (thread_queue_mc: both counters 0, holder_ null; queue_holder_thread: counters 0, set_holder on each queue -- "
+        "for a queue shared between holders the last constructed holder wins), ~queue_holder_thread, get_queue_length*, "
+        "get_thread_count*, enumerate_threads, abort_all_suspended_threads' queueing (other.c covers its state step), worker_next, "
+        "queue_holder_numa / shared_priority_queue_scheduler (C10 steal.*), the non-MMAP branch of destroy_thread, int32 counter "
+        "overflow beyond 2*10^9 entries, failure of ConcurrentQueue::enqueue (result ignored by pika), std::bad_alloc out of "
+        "create_thread_object / unordered_set::insert (same leak as (a))",
+        "composition of the hops with each other and with the state word (history induction, paper)",
+    ],
+}
+
+try:
+    from vx import census as _mc_census
+    MC_STATIC = [
+        _mc_census.sites("mc.new_tasks_count_.writes", [MC_TQ], r"(?:\+\+|--)\s*(?:\w+\s*->\s*)?new_tasks_count_|\bnew_tasks_count_\.data_\s*=(?!=)", 3,
+                         "create_thread (++: mc.tq.create_thread), add_new (--: mc.tq.add_new), constructor (= 0: not under contract)"),
+        _mc_census.sites("mc.work_items_count_.writes", [MC_TQ], r"(?:\+\+|--)\s*(?:\w+\s*->\s*)?work_items_count_|\bwork_items_count_\.data_\s*=(?!=)", 3,
+                         "schedule_work (++), get_next_thread (--), constructor (= 0: not under contract)"),
+        _mc_census.sites("mc.new_task_items_.ops", ["libs/pika/**/*.hpp", "libs/pika/**/*.cpp"], r"\bnew_task_items_\s*\.\s*\w+\(", 2,
+                         "pop (add_new), push (create_thread)"),
+        _mc_census.sites("mc.work_items_.ops", [MC_TQ, MC_QH], r"\bwork_items_\s*\.\s*\w+\(", 2, "pop (get_next_thread), push (schedule_work)"),
+        _mc_census.sites("mc.schedule_work.sites", [MC_TQ, MC_QH], r"\bschedule_work\(", 8,
+                         "definition + add_new + create_thread (mc.tq.*), 4 x queue_holder_thread::schedule_thread (mc.qh.schedule_thread), "
+                         "abort_all_suspended_threads (not under contract; ends in `throw`)"),
+        _mc_census.sites("mc.thread_map_.mutators", [MC_QH], r"\bthread_map_\.(?:insert|erase|clear|emplace)\(", 2, "add_to_thread_map, remove_from_thread_map"),
+        _mc_census.sites("mc.terminated_items_.ops", [MC_QH], r"\bterminated_items_\.(?:push|pop)\(", 3, "destroy_thread (push), cleanup_terminated (2 x pop)"),
+        _mc_census.sites("mc.thread_map_count_.writes", [MC_QH], r"(?:\+\+|--)\s*thread_map_count_|\bthread_map_count_\.data_\s*=(?!=)", 3,
+                         "add_to_thread_map (++), remove_from_thread_map (--), constructor (= 0: not under contract)"),
+        _mc_census.sites("mc.terminated_items_count_.writes", [MC_QH], r"(?:\+\+|--)\s*terminated_items_count_|\bterminated_items_count_\.data_\s*=(?!=)", 4,
+                         "destroy_thread (++), cleanup_terminated (2 x --), constructor (= 0: not under contract)"),
+        _mc_census.sites("mc.thread_map.calls", ["libs/pika/**/*.hpp", "libs/pika/**/*.cpp"], r"\b(?:add_to_thread_map|remove_from_thread_map)\(", 7,
+                         "2 definitions; add_to_thread_map from thread_queue_mc::add_new / create_thread; remove_from_thread_map from "
+                         "cleanup_terminated (2) and the inactive non-MMAP branch of destroy_thread (1)"),
+    ]
+except ImportError:
+    MC_STATIC = []
